@@ -872,6 +872,10 @@ func (g *fnGen) lockAcquired(st *state, cc *ssa.CallCommon) {
 				} else if _, isStruct := f.Type().Underlying().(*types.Struct); !isStruct {
 					g.havocLoc(st, assignLoc{g.fieldArrayName(structT, f), owner, "(Array Int " + g.R.sortOf(f.Type()) + ")"})
 				}
+				if _, isStruct := f.Type().Underlying().(*types.Struct); !isStruct {
+					// the (possibly new) value of a guarded field is a well-formed value of its type, allocated by now
+					g.typeFacts(st, g.readField(st, structT, f, owner), f.Type())
+				}
 			}
 		}
 	}
